@@ -223,3 +223,27 @@ func proofIsRecorded(c *Ctx, P string) []Obligation {
 		{Prop: P, ID: "setproof.writes-the-evidence-back", Fn: f, Barrier: []string{`^x/pocketcore/types\.SetEvidence\(var:evidence, evidenceStore\)`}, Target: TargetAnyReturn(), Why: "and it is written back to the same store"},
 	})
 }
+
+// merkleFolding (C30): each level folds the sibling into the target — the range grows to cover the sibling
+// and the hash becomes the parent hash of the two, left operand first, with the pair's indices.
+func merkleFolding(c *Ctx, P string) []Obligation {
+	f := "(x/pocketcore/types.MerkleProof).Validate"
+	sib := `var:mp\.HashRanges\[phi:i\]`
+	odd := `^eq\(\(var:mp\.TargetIndex % 2\), 1\)$`
+	lcont := `^eq\(` + sib + `\.Range\.Upper, var:mp\.Target\.Range\.Lower\)$`
+	rcont := `^eq\(` + sib + `\.Range\.Lower, var:mp\.Target\.Range\.Upper\)$`
+	out := []Obligation{
+		c.edgeMust(P, "fold.right-child.range-extends-left", f, lcont, true, `store:^var:mp\.Target\.Range\.Lower = `+sib+`\.Range\.Lower$`, 1, "a right child takes its left sibling's lower bound"),
+		c.edgeMust(P, "fold.right-child.hash-is-parent-of-sibling-then-target", f, lcont, true, `store:^var:mp\.Target\.Hash = x/pocketcore/types\.parentHash\(height, `+sib+`\.Hash, var:mp\.Target\.Hash, var:mp\.Target\.Range, conv<uint64>\(\(var:mp\.TargetIndex - 1\)\), conv<uint64>\(var:mp\.TargetIndex\)\)$`, 1, "and the parent hash of (sibling, target) over the merged range, with indices (i-1, i)"),
+		c.edgeMust(P, "fold.left-child.range-extends-right", f, rcont, true, `store:^var:mp\.Target\.Range\.Upper = `+sib+`\.Range\.Upper$`, 1, "a left child takes its right sibling's upper bound"),
+		c.edgeMust(P, "fold.left-child.hash-is-parent-of-target-then-sibling", f, rcont, true, `store:^var:mp\.Target\.Hash = x/pocketcore/types\.parentHash\(height, var:mp\.Target\.Hash, `+sib+`\.Hash, var:mp\.Target\.Range, conv<uint64>\(var:mp\.TargetIndex\), conv<uint64>\(\(var:mp\.TargetIndex \+ 1\)\)\)$`, 1, "and the parent hash of (target, sibling) over the merged range, with indices (i, i+1)"),
+		c.edgeMust(P, "fold.index-halves-every-level", f, `^lt\(phi:i, numOfLevels\)$`, true, `store:^var:mp\.TargetIndex = \(var:mp\.TargetIndex / 2\)$ || ret:^false`, 1, "every level that does not reject halves the index"),
+	}
+	_ = odd
+	out = append(out, c.Rows([]Row{
+		{Prop: P, ID: "parenthash.operand-order", Fn: "x/pocketcore/types.parentHash",
+			Target: CallTo(`^x/pocketcore/types\.MultiAppend\(`).Except(`^x/pocketcore/types\.MultiAppend\(&var:makeslice\[:(96|80)\], \[hash1, hash2, (x/pocketcore/types\.uint64ToBytes\(index1, index2\), )?\(x/pocketcore/types\.Range\)\.Bytes\(r\)\]\)$`),
+			Why:    "the parent commits to the left hash, the right hash, (after the codec upgrade) the two indices, and the range — in that order, in a buffer of exactly their total length"},
+	})...)
+	return out
+}
